@@ -2,6 +2,7 @@ import Swat4.Drv.Common
 import Swat4.Model.Filter
 import Swat4.Spec.FilterSpec
 import Swat4.Spec.FilterBridge
+import Swat4.Model.Rest
 /-!
 Driver side of C03 (line protocol: see `harness/internal/c03/c03.go`).
 
@@ -133,17 +134,14 @@ def classOk (it : Intent) (cls : String) : Bool :=
 
 def requiredInScope (required : Nat) : Bool := (bitsOf required).all Facts.statusMembers.contains
 
-/-- `strconv.ParseBool` behind gin's query binding (`""` binds as `false`) -/
-def parseBoolTok (t : String) : Option (Option Bool) :=
-  if t = "~" then some (some false)
-  else match hex? t with
-    | Option.none => Option.none
-    | some b =>
-      let s := String.ofList (b.map fun x => Char.ofNat x.toNat)
-      if s = "" then some (some false)
-      else if ["1", "t", "T", "TRUE", "true", "True"].contains s then some (some true)
-      else if ["0", "f", "F", "FALSE", "false", "False"].contains s then some (some false)
-      else some Option.none
+/-- a REST flag token: `~` = the parameter is absent, otherwise the hex of its value (`-` = empty) -/
+def flagTok (t : String) : Option (Option Bytes) :=
+  if t = "~" then some Option.none else (hex? t).map some
+
+/-- gin's query binding of a `bool` field — the model's `Rest.bindBool` (`setBoolField`: absent and `""` bind as
+`false`, anything else through `strconv.ParseBool` = `Rest.parseBool`); outer `none` = the token is not a flag
+token, inner `none` = the binding fails -/
+def parseBoolTok (t : String) : Option (Option Bool) := (flagTok t).map Rest.bindBool
 
 def strParam (t : String) : Option Bytes := if t = "~" then some [] else hex? t
 
@@ -203,18 +201,21 @@ def handle (args out : List String) : Verdict :=
         handleListing "reply" recs (timeOfK now) (256 * liv) Facts.statusMaster (browserQuery bs) (oracleClauses bs it) (· == "reply") out
       else .bad "intent"
     | _, _, _, _, _ => .bad "C03 blist tokens"
-  | "rest" :: now :: liv :: gv :: gver :: gt :: np :: nf :: ne :: srvs =>
+  | "rest" :: now :: liv :: gv :: gver :: gt :: np0 :: nf0 :: ne0 :: srvs =>
     match int? now, int? liv, strParam gv, strParam gver, strParam gt, srvs.mapM recordOfTok with
     | some now, some liv, some gv, some gver, some gt, some recs =>
-      match parseBoolTok np, parseBoolTok nf, parseBoolTok ne with
+      match parseBoolTok np0, parseBoolTok nf0, parseBoolTok ne0 with
       | some np, some nf, some ne =>
         match np, nf, ne with
         | some np, some nf, some ne =>
           let flags : Flags := ⟨gv, gver, gt, np, nf, ne⟩
           handleListing "200" recs (timeOfK now) (256 * liv) Facts.statusInfo (prepareQuery (toForm flags)) (flagClauses flags) (· == "200") out
         | _, _, _ =>
-          -- a flag that does not parse as a bool: gin's binding fails, 400 and no listing (not a filter-string matter)
-          verdict (out == ["400", "-"]) (out == ["400", "-"]) "model=400 -"
+          -- a flag that does not parse as a bool: gin's binding fails, no listing (not a filter-string matter); the
+          -- status is the model's (`Rest.listServers` on the three flag parameters: `bindListQuery` fails ⇒ 400)
+          let q : Rest.ListQuery := { hidePassworded := (flagTok np0).join, hideFull := (flagTok nf0).join, hideEmpty := (flagTok ne0).join }
+          let model := [toString (Rest.listServers (timeOfK now) (256 * liv) q []).status, "-"]
+          verdict (out == model) (out == ["400", "-"]) s!"model={" ".intercalate model}"
       | _, _, _ => .bad "C03 rest flags"
     | _, _, _, _, _, _ => .bad "C03 rest tokens"
   | _ => .bad "C03 shape"
